@@ -344,10 +344,32 @@ fn run(fidx: u32, ops: &str) -> String {
 }
 
 fn main() {
-    rbverif::line_loop(|line| {
+    let case_ms: u64 = std::env::var("C14_CASE_MS").ok().and_then(|v| v.parse().ok()).unwrap_or(10000) + long_ms();
+    let mut hangs = 0;
+    rbverif::line_loop(move |line| {
         let parts: Vec<&str> = line.split(' ').collect();
         match parts[0] {
-            "run" => run(parts[1].parse().unwrap(), parts.get(2).copied().unwrap_or("")),
+            "run" => {
+                if hangs >= 3 {
+                    return "SKIPPED".to_string();
+                }
+                let fidx: u32 = parts[1].parse().unwrap();
+                let ops = parts.get(2).copied().unwrap_or("").to_string();
+                // every case has a deadline of its own (hang detector only: the longest wait of a case is the 2 s
+                // stand-in for Infinite, after which the case stops)
+                let (tx, rx) = std::sync::mpsc::channel();
+                std::thread::spawn(move || {
+                    let r = std::panic::catch_unwind(|| run(fidx, &ops));
+                    let _ = tx.send(r.unwrap_or_else(|_| "PANIC in RpcConn".to_string()));
+                });
+                match rx.recv_timeout(std::time::Duration::from_millis(case_ms)) {
+                    Ok(r) => r,
+                    Err(_) => {
+                        hangs += 1;
+                        "STUCK|".to_string()
+                    }
+                }
+            }
             _ => "?".to_string(),
         }
     });
